@@ -15,15 +15,24 @@
    arithmetic, on the interpolation formula shared with the model: vertex
    hits at both ends, 1-Lipschitz / isometry in the distance, convexity.
 
-   NOT proved (the property stays PARTIAL):
-     - the Lipschitz bound ACROSS segments (triangle inequality along the
-       polyline) and its IEEE version with rounding slack;
-     - vertex hits at progress lengths[i] / dist (the division and the
-       multiplication by dist round; only d = lengths[i] itself is covered);
-     - progress 1 when the last cumulative length is repeated (duplicate end:
-       the search may select any of the equal entries).
-   They are monitored by the search oracle of harness/src/c19.rs with an
-   explicit rounding slack. *)
+   Proved at the end of this file (T19b for the WHOLE curve, exact arithmetic,
+   on the functions shared with the model; lengths = the cumulative polyline
+   lengths of the path, which start at 0 and are non-decreasing; the search
+   enters through its contract, which the transcribed std binary search is
+   proved to meet on every non-decreasing list, duplicates included):
+     - position_at 0 = first vertex, position_at 1 = last vertex (a repeated
+       last length included), position_at (lengths[j] / dist) = path[j]
+       (vertices carrying the same cumulative length coincide);
+     - the GLOBAL bound |position_at a - position_at b| <= |a - b| * dist
+       across segments (with the near-zero-segment guard at a width eps > 0:
+       + 2 eps).
+   And the IEEE reading of progress 1 with a repeated last length.
+
+   NOT proved (the property stays PARTIAL): the Lipschitz bound and the vertex
+   hits through lengths[i] / dist in IEEE arithmetic (the division, the
+   multiplication by dist and the interpolation round).  They are monitored
+   by the search oracle of harness/src/c19.rs with an explicit rounding
+   slack. *)
 From Coq Require Import Reals.
 From Flocq Require Import IEEE754.BinarySingleNaN.
 From RM Require Import Model.ControlPoints Model.Curve Proofs.PositionFacts Proofs.LengthFacts
@@ -251,4 +260,245 @@ Proof. vm_compute. reflexivity. Qed.
 Example C19_leading_zero_lengths :
   let lengths := [D.zero; D.zero; D.zero; D.of_Z 5] in
   idx_of_dist lengths (progress_to_dist lengths D.zero) = 2%nat.
+Proof. vm_compute. reflexivity. Qed.
+
+(* ================================================================== *)
+(* T19b for the whole curve -- exact arithmetic                        *)
+(* ================================================================== *)
+From RM Require Import Proofs.AdjustExact Proofs.PositionExact.
+
+(* position_at & friends are written once over abstract operations; the model
+   is the IEEE instance ... *)
+Theorem C19_model_position_formula :
+  forall path lengths p,
+  position_at path lengths p =
+  position_at_g D.zero D.one D.mul D.lt D.gt
+    (fun d0 d1 => D.le (D.abs (D.sub d0 d1)) D.eps)
+    (fun p0 p1 d0 d1 d => padd p0 (pmul (psub p1 p0) (f32_of_f64 (D.div (D.sub d d0) (D.sub d1 d0)))))
+    pos0 (idx_of_dist_g D.lt D.gt) path lengths p.
+Proof. exact model_position_at. Qed.
+Print Assumptions C19_model_position_formula.
+
+Theorem C19_model_search_formula : idx_of_dist = idx_of_dist_g D.lt D.gt.
+Proof. exact model_idx_of_dist. Qed.
+Print Assumptions C19_model_search_formula.
+
+(* ... and this is the real instance the theorems below are about: guard
+   |d0 - d1| <= eps, the interpolation formula interp_R per coordinate, the
+   comparisons of R, cumulative lengths = running sums of Euclidean distances *)
+Theorem C19_real_instance :
+  (forall eps search, position_R eps search =
+     position_at_g 0%R 1%R Rmult Rltb Rgtb (near_R eps) interp2 (0%R, 0%R) search) /\
+  (forall eps d0 d1, near_R eps d0 d1 = true <-> (Rabs (d0 - d1) <= eps)%R) /\
+  (forall p0 p1 d0 d1 d, interp2 p0 p1 d0 d1 d =
+     (interp_R (fst p0) (fst p1) d0 d1 d, interp_R (snd p0) (snd p1) d0 d1 d)) /\
+  (forall a b, Rltb a b = true <-> (a < b)%R) /\ (forall a b, Rgtb a b = Rltb b a) /\
+  idx_of_dist_R = idx_of_dist_g Rltb Rgtb /\
+  (forall path, cumlen path = 0%R :: fst (cum_g Rplus edist 0%R path)) /\
+  (forall path, poly_len path = snd (cum_g Rplus edist 0%R path)).
+Proof.
+  split; [reflexivity|]. split; [intros eps d0 d1; unfold near_R; destruct (Rle_dec (Rabs (d0 - d1)) eps); split; intros; try assumption; try reflexivity; try discriminate; contradiction|].
+  split; [reflexivity|]. split; [exact Rltb_true|]. repeat split.
+Qed.
+Print Assumptions C19_real_instance.
+
+(* the contract of the search: i is an element equal to d, or every element
+   before i is below d and every element from i on is above d *)
+Theorem C19_search_contract_definition :
+  forall search, search_contract search <->
+  forall l d, (forall i j x y, (i <= j)%nat -> nth_error l i = Some x -> nth_error l j = Some y -> (x <= y)%R) ->
+  (search l d <= length l)%nat /\
+  ((exists x, nth_error l (search l d) = Some x /\ x = d) \/
+   ((forall j x, (j < search l d)%nat -> nth_error l j = Some x -> (x < d)%R) /\
+    (forall j x, (search l d <= j)%nat -> nth_error l j = Some x -> (d < x)%R))).
+Proof. intros. reflexivity. Qed.
+Print Assumptions C19_search_contract_definition.
+
+(* the transcribed std binary search meets it on every non-decreasing list
+   (duplicates included) ... *)
+Theorem C19_std_search_meets_contract : search_contract idx_of_dist_R.
+Proof. exact idx_of_dist_R_contract. Qed.
+Print Assumptions C19_std_search_meets_contract.
+
+(* ... as an instance of: for ANY comparator that is monotone along the list *)
+Theorem C19_std_search_contract_generic :
+  forall (Q : Type) (f : Q -> comparison) (l : list Q),
+  (forall i j x y, (i <= j)%nat -> nth_error l i = Some x -> nth_error l j = Some y -> f x = Gt -> f y = Gt) ->
+  (forall i j x y, (i <= j)%nat -> nth_error l i = Some x -> nth_error l j = Some y -> f y = Lt -> f x = Lt) ->
+  match bsearch_by f l with
+  | inl i => exists x, nth_error l i = Some x /\ f x = Eq
+  | inr i => (i <= length l)%nat /\
+             (forall j x, (j < i)%nat -> nth_error l j = Some x -> f x = Lt) /\
+             (forall j x, (i <= j)%nat -> nth_error l j = Some x -> f x = Gt)
+  end.
+Proof. exact @bsearch_by_contract. Qed.
+Print Assumptions C19_std_search_contract_generic.
+
+(* cumulative polyline lengths: first 0, non-decreasing, the chord between two
+   vertices is not longer than the arc; equal lengths => the same point *)
+Theorem C19_cumulative_lengths_facts :
+  forall path : list P2, path <> [] ->
+  nth_error (cumlen path) 0 = Some 0%R /\ length (cumlen path) = length path /\
+  (forall i j x y, (i <= j)%nat -> nth_error (cumlen path) i = Some x -> nth_error (cumlen path) j = Some y -> (x <= y)%R) /\
+  (forall i j p q a b, (i <= j)%nat -> nth_error path i = Some p -> nth_error path j = Some q ->
+     nth_error (cumlen path) i = Some a -> nth_error (cumlen path) j = Some b -> (edist p q <= b - a)%R) /\
+  (forall i j p q a, nth_error path i = Some p -> nth_error path j = Some q ->
+     nth_error (cumlen path) i = Some a -> nth_error (cumlen path) j = Some a -> p = q).
+Proof.
+  intros path H. split; [reflexivity|]. split; [exact (lens_length path H)|].
+  split; [exact (lens_sorted path H)|]. split; [exact (chord_le_arc path H)|exact (same_length_same_vertex path H)].
+Qed.
+Print Assumptions C19_cumulative_lengths_facts.
+
+(* for ANY contract-conforming search: *)
+
+(* at the cumulative length of vertex j the position is vertex j *)
+Theorem C19_exact_position_at_vertex_length :
+  forall (path : list P2), path <> [] -> forall search, search_contract search ->
+  forall j pj lj, nth_error path j = Some pj -> nth_error (cumlen path) j = Some lj ->
+  interpolate_R 0 path (cumlen path) (search (cumlen path) lj) lj = Done pj.
+Proof. exact interpolate_at_vertex_length. Qed.
+Print Assumptions C19_exact_position_at_vertex_length.
+
+(* progress 0 (and below): the first vertex *)
+Theorem C19_exact_progress_zero :
+  forall (path : list P2), path <> [] -> forall search, search_contract search ->
+  forall first, nth_error path 0 = Some first ->
+  forall p, (p <= 0)%R -> position_R 0 search path (cumlen path) p = Done first.
+Proof. exact position_at_zero_R. Qed.
+Print Assumptions C19_exact_progress_zero.
+
+(* progress 1 (and above): the last vertex -- a repeated last length included *)
+Theorem C19_exact_progress_one :
+  forall (path : list P2), path <> [] -> forall search, search_contract search ->
+  forall p, (1 <= p)%R -> position_R 0 search path (cumlen path) p = Done (last path (0%R, 0%R)).
+Proof. exact position_at_one_R. Qed.
+Print Assumptions C19_exact_progress_one.
+
+(* progress lengths[j] / dist: vertex j *)
+Theorem C19_exact_vertex_fraction :
+  forall (path : list P2), path <> [] -> forall search, search_contract search ->
+  forall j pj lj, (0 < poly_len path)%R ->
+  nth_error path j = Some pj -> nth_error (cumlen path) j = Some lj ->
+  position_R 0 search path (cumlen path) (lj / poly_len path) = Done pj.
+Proof. exact position_at_vertex_fraction. Qed.
+Print Assumptions C19_exact_vertex_fraction.
+
+(* the global Lipschitz bound, across segments *)
+Theorem C19_exact_lipschitz :
+  forall (path : list P2), path <> [] -> forall search, search_contract search ->
+  forall a b, exists qa qb,
+    position_R 0 search path (cumlen path) a = Done qa /\
+    position_R 0 search path (cumlen path) b = Done qb /\
+    (edist qa qb <= Rabs (a - b) * poly_len path)%R.
+Proof. exact position_at_lipschitz. Qed.
+Print Assumptions C19_exact_lipschitz.
+
+(* with the near-zero-segment guard at its real width eps (the code:
+   f64::EPSILON): a point inside a segment not longer than eps is reported as
+   the segment's start, which costs at most eps at either end *)
+Theorem C19_exact_lipschitz_with_guard :
+  forall (path : list P2), path <> [] -> forall search, search_contract search ->
+  forall eps a b, (0 <= eps)%R -> exists qa qb,
+    position_R eps search path (cumlen path) a = Done qa /\
+    position_R eps search path (cumlen path) b = Done qb /\
+    (edist qa qb <= Rabs (a - b) * poly_len path + 2 * eps)%R.
+Proof. exact position_at_lipschitz_guard. Qed.
+Print Assumptions C19_exact_lipschitz_with_guard.
+
+(* the Section hypothesis discharged: the same for the transcribed search *)
+Theorem C19_exact_whole_curve :
+  forall (path : list P2), path <> [] ->
+  (forall first p, nth_error path 0 = Some first -> (p <= 0)%R ->
+     position_R 0 idx_of_dist_R path (cumlen path) p = Done first) /\
+  (forall p, (1 <= p)%R -> position_R 0 idx_of_dist_R path (cumlen path) p = Done (last path (0%R, 0%R))) /\
+  (forall j pj lj, (0 < poly_len path)%R -> nth_error path j = Some pj -> nth_error (cumlen path) j = Some lj ->
+     position_R 0 idx_of_dist_R path (cumlen path) (lj / poly_len path) = Done pj) /\
+  (forall a b, exists qa qb,
+     position_R 0 idx_of_dist_R path (cumlen path) a = Done qa /\
+     position_R 0 idx_of_dist_R path (cumlen path) b = Done qb /\
+     (edist qa qb <= Rabs (a - b) * poly_len path)%R).
+Proof.
+  intros path H. split; [intros; now apply std_position_at_zero|]. split; [intros; now apply std_position_at_one|].
+  split; [intros j pj lj HL Hp Hl; exact (std_position_at_vertex_fraction path j pj lj H HL Hp Hl)|intros; now apply std_position_at_lipschitz].
+Qed.
+Print Assumptions C19_exact_whole_curve.
+
+(* non-vacuity: the polyline of C19_nonvacuous has cumulative lengths 0, 5, 18 *)
+Theorem C19_exact_example :
+  cumlen [(0, 0); (3, 4); (8, 16)]%R = [0; 5; 18]%R /\ poly_len [(0, 0); (3, 4); (8, 16)]%R = 18%R.
+Proof. exact cumlen_example. Qed.
+Print Assumptions C19_exact_example.
+
+(* ================================================================== *)
+(* progress 1 with a REPEATED last cumulative length -- IEEE arithmetic *)
+(* ================================================================== *)
+From RM Require Import Proofs.LengthMono Proofs.PositionEndIEEE.
+
+(* on non-decreasing lengths without NaN / negative entries and a finite total
+   L, the search at distance L returns an index whose length is numerically
+   equal to L (whichever of the equal entries the binary search lands on) *)
+Theorem C19_search_at_total_distance :
+  forall pre L,
+  nondec (pre ++ [L]) -> Forall pos64 (pre ++ [L]) -> is_finite L = true ->
+  exists x, nth_error (pre ++ [L]) (idx_of_dist (pre ++ [L]) L) = Some x /\
+            is_finite x = true /\ B2R x = B2R L.
+Proof. exact search_at_total. Qed.
+Print Assumptions C19_search_at_total_distance.
+
+(* at a distance numerically equal to the selected vertex's cumulative length
+   the interpolation weight is exactly 1 (the subtraction d1 - d0 cannot round
+   to zero outside the near-zero-segment guard) *)
+Theorem C19_weight_one_at_equal_length :
+  forall path lengths i p0 p1 d0 d1 d,
+  nth_error path i = Some p0 -> nth_error path (S i) = Some p1 ->
+  nth_error lengths i = Some d0 -> nth_error lengths (S i) = Some d1 ->
+  fin64 d0 -> fin64 d1 -> fin64 d -> (0 <= B2R d0 <= B2R d1)%R -> B2R d = B2R d1 ->
+  fin32 (px (psub p1 p0)) -> fin32 (py (psub p1 p0)) ->
+  interpolate_vertices path lengths (S i) d =
+  Done (if D.le (D.abs (D.sub d0 d1)) D.eps then p0 else padd p0 (psub p1 p0)).
+Proof. exact interpolate_at_equal_length. Qed.
+Print Assumptions C19_weight_one_at_equal_length.
+
+(* progress 1 on every lengths list of the class of C16_lengths_nondecreasing
+   (every zero-seed outcome of calculate_length, the "last two points equal"
+   outcome with its extra entry included): the distance is exactly the total
+   L, and the position is the first vertex (index 0: L = 0), the last vertex
+   (index past the path), or -- for a vertex p1 whose cumulative length equals
+   L -- the vertex before it under the near-zero-segment guard, else
+   p0 + (p1 - p0): that vertex up to ONE rounding *)
+Theorem C19_progress_one_repeated_last_length :
+  forall path lens,
+  lengths_ok lens -> fin64 (Curve.dist lens) ->
+  (forall i p0 p1, nth_error path i = Some p0 -> nth_error path (S i) = Some p1 ->
+     fin32 (px (psub p1 p0)) /\ fin32 (py (psub p1 p0))) ->
+  (length path <= length lens)%nat -> path <> [] ->
+  let L := Curve.dist lens in
+  progress_to_dist lens D.one = L /\
+  exists q, position_at path lens D.one = Done q /\
+    (q = hd pos0 path \/ q = last path pos0 \/
+     exists i p0 p1 d0 d1,
+       S i = idx_of_dist lens L /\
+       nth_error path i = Some p0 /\ nth_error path (S i) = Some p1 /\
+       nth_error lens i = Some d0 /\ nth_error lens (S i) = Some d1 /\
+       B2R d1 = B2R L /\
+       ((D.le (D.abs (D.sub d0 d1)) D.eps = true /\ q = p0) \/
+        (D.le (D.abs (D.sub d0 d1)) D.eps = false /\ q = padd p0 (psub p1 p0)))).
+Proof. exact position_at_one_lengths_ok. Qed.
+Print Assumptions C19_progress_one_repeated_last_length.
+
+(* concrete: (0,0) (3,4) (3,4) with L = 20 -- the last two points are equal
+   and L is beyond the natural length 5: lengths 0, 5, 5, 5 for 3 vertices;
+   the search lands on the extra entry and progress 1 is the last vertex *)
+Example C19_repeated_last_length_example :
+  match curve_L1 lm0 bezier_fuel 1 [pt 0 0 (Some Linear); pt 3 4 None; pt 3 4 None] (Some (D.of_Z 20)) with
+  | Done c =>
+      (length (c_path c), map D.bits (c_lengths c),
+       idx_of_dist (c_lengths c) (progress_to_dist (c_lengths c) D.one),
+       dump_out dump_pos (position_at (c_path c) (c_lengths c) D.one))
+  | _ => (O, [], O, [])
+  end
+  = (3%nat, [D.bits D.zero; D.bits (D.of_Z 5); D.bits (D.of_Z 5); D.bits (D.of_Z 5)], 3%nat,
+     0%Z :: dump_pos (mkPos (S.of_Z 3) (S.of_Z 4))).
+
 Proof. vm_compute. reflexivity. Qed.
